@@ -212,6 +212,8 @@ def plot_burst_detect_param(df_features, sig, fs, burst_param, thresh,
 
     # Ensure arguments are within valid range
     check_param_range(fs, 'fs', (0, np.inf))
+    if fs == 0:
+        raise ValueError('fs must be greater than zero.')
 
     # Set default kwargs
     figsize = kwargs.pop('figsize', (15, 3))
